@@ -233,7 +233,10 @@ fn fn_def_json<'tcx>(tcx: TyCtxt<'tcx>, did: DefId, args: GenericArgsRef<'tcx>) 
 fn constval_json<'tcx>(tcx: TyCtxt<'tcx>, _c: MirConst<'tcx>, val: ConstValue, ty: Ty<'tcx>) -> J {
     match val {
         ConstValue::Scalar(mir::interpret::Scalar::Int(si)) => scalar_json(tcx, si, ty),
-        ConstValue::Scalar(_) => J::Obj(vec![("opaque", s("ptr")), ("ty", s(ty_str(ty)))]),
+        ConstValue::Scalar(_) => {
+            let repr = ty::print::with_no_trimmed_paths!(format!("{}", MirConst::Val(val, ty)));
+            J::Obj(vec![("opaque", s("indirect")), ("ty", s(ty_str(ty))), ("repr", s(repr))])
+        }
         ConstValue::ZeroSized => match ty.kind() {
             ty::FnDef(did, args) => fn_def_json(tcx, *did, args),
             _ => J::Obj(vec![("zst", s(ty_str(ty)))]),
